@@ -131,4 +131,22 @@ theorem unaryCriteriaToRange_eq (op : CmpOp) (f : Bytes) (x : Operand) :
       · cases op <;> simp [hr, hn, opName, id_pure, toModel]
       · cases op <;> simp [hr, hn, opName, id_pure, toModel]
 
+/-- `UnaryCriteria.compare` (query/criteria.go) as the current source writes it: for the four ordering operators it
+    returns - never reaching its `panic` - the model's `satCmp`: the sign test of `Compare(doc.Get(field), operand)`,
+    the operand dereferenced when it names a field -/
+theorem unaryCompare_eq (op : CmpOp) (hop : op ≠ .eq) (f : Bytes) (x : Operand) (d : Doc) :
+    UnaryCriteria_compare ⟨opName op, f, x⟩ d = some (satCmp d op f x) := by
+  cases op <;> first | (exact absurd rfl hop) | simp [UnaryCriteria_compare, satCmp, opName, Id.run, id_pure]
+
+/-- `UnaryCriteria.eq`: present and comparing equal -/
+theorem unaryEq_eq (f : Bytes) (x : Operand) (d : Doc) :
+    UnaryCriteria_eq ⟨opName .eq, f, x⟩ d = satCmp d .eq f x := by
+  simp only [UnaryCriteria_eq, satCmp, Id.run, int_beq]
+  cases h : Doc.has d f <;> simp [id_pure]
+
+/-- `UnaryCriteria.exist` -/
+theorem unaryExist_eq (op : String) (f : Bytes) (x : Operand) (d : Doc) :
+    UnaryCriteria_exist ⟨op, f, x⟩ d = d.has f := by
+  simp [UnaryCriteria_exist, Id.run, id_pure]
+
 end CV.Translated
